@@ -375,6 +375,7 @@ func run(c *core.Ctx) {
 	}
 	var sent []hostile
 	var history []*hostile
+	hostileKeys := map[int]bool{} // validators whose keys signed hostile messages in this case: the Byzantine set
 	fpKinds := ""
 	processed := 0
 	if r.Chance(0.7) {
@@ -441,6 +442,9 @@ func run(c *core.Ctx) {
 		c.Count("hostile_messages", 1)
 		c.Count("kind:"+hm.Kind, 1)
 		c.Count("role:"+att.role, 1)
+		if att.role != "outsider" {
+			hostileKeys[att.id] = true
+		}
 		c.Count("state:"+rs.Step.String(), 1)
 		sent = append(sent, hostile{Kind: hm.Kind, Fields: hm.Fields + "role=" + att.role + " state=" + rs.Step.String()})
 		fpKinds += hm.Kind[:2] + hm.Fields
@@ -547,6 +551,17 @@ func run(c *core.Ctx) {
 	}
 	if all() {
 		c.Count("continuations_committed", 1)
+	} else if byzPower := func() (p int64) {
+		for id := range hostileKeys {
+			p += sim.Vals[id].Power
+		}
+		return
+	}(); 3*byzPower >= sim.TotalPower() {
+		// The validators whose keys signed hostile messages are the Byzantine set of this case. With a third or
+		// more of the power they can equivocate a node into two +2/3 majorities (e.g. a validly signed nil
+		// precommit next to the real one): consensus promises nothing then, and a victim that cannot follow is
+		// no violation of "a single peer cannot halt the node". Panic and allocation oracles still applied above.
+		c.Count("continuations_not_judged_hostile_keys_hold_a_third_or_more", 1)
 	} else if !c.Violated() {
 		others := true
 		for _, n := range sim.Nodes {
